@@ -162,7 +162,9 @@ def gen_scenario(rng, ix):
         faults = [[(rng.choice(FAULT_CODES) if rng.random() < 0.3 else 0) for _ in range(6)] for _ in cmds]
     else:
         faults = [[] for _ in cmds]
-    return {"id": ix, "faults": faults, "classes": {"system": kind, "backup": bk, "package": pk}, "files": files, "extras": extras,
+    # now and then the first systemctl call of every command (the stop of install / restore / uninstall) takes a while
+    delays = [[0.4] for _ in cmds] if rng.random() < 0.04 else [[] for _ in cmds]
+    return {"id": ix, "faults": faults, "delays": delays, "classes": {"system": kind, "backup": bk, "package": pk}, "files": files, "extras": extras,
             "running": rng.random() < 0.6, "enabled": rng.random() < 0.6, "cmds": cmds}
 
 
@@ -263,13 +265,16 @@ def runner_input(sc, lay, binary):
             "unit_dir": lay.unit_dir, "service": lay.service,
             "files": [[lay.render(k), m, d.hex()] for k, (m, d) in sorted(sc["files"].items())],
             "running": sc["running"], "enabled": sc["enabled"], "cmds": sc["cmds"],
-            "faults": sc.get("faults") or [[] for _ in sc["cmds"]]}
+            "faults": sc.get("faults") or [[] for _ in sc["cmds"]],
+            "delays": sc.get("delays") or [[] for _ in sc["cmds"]]}
 
 
 def run_impl(ctx, inputs, workers=8):
     runner = os.path.join(vplib.VERIF, "setup_env", "runner.py")
-    chunks = [inputs[i::workers] for i in range(workers)]
-    chunks = [c for c in chunks if c]
+    slow = [x for x in inputs if any(d and max(d) > 5 for d in x.get("delays") or [])]
+    rest = [x for x in inputs if x not in slow]
+    chunks = [rest[i::workers] for i in range(workers)]
+    chunks = [c for c in chunks if c] + [[x] for x in slow]     # a scripted slow stop gets a worker of its own
 
     def go(ic):
         i, chunk = ic
@@ -345,8 +350,18 @@ def property_failures(sc, impl, contents):
             stops = [j for j, c in enumerate(calls) if c[0][:1] == ["stop"]]
             if not stops:
                 why.append("step %d %s changed a system file without stopping the service" % (i, " ".join(args)))
-            elif any(c[1] != pre4 for c in calls[:stops[0] + 1]):
-                why.append("step %d %s replaced a system file before `systemctl stop`" % (i, " ".join(args)))
+            elif any(c[1] != pre4 for c in calls[:stops[0] + 1]) or calls[stops[0]][3] != pre4:
+                why.append("step %d %s replaced a system file before `systemctl stop` had completed" % (i, " ".join(args)))
+        # ... judged on COMPLETION of the stop: while a `systemctl stop` is in progress no system file
+        # changes and no `start` is requested
+        for cl in calls:
+            if cl[0][:1] == ["stop"]:
+                if cl[2] == -1:
+                    why.append("step %d %s: `systemctl stop` was still in progress long after the tool had finished" % (i, " ".join(args)))
+                elif cl[3] != cl[1]:
+                    why.append("step %d %s replaced a system file while `systemctl stop` was still in progress" % (i, " ".join(args)))
+                if any(b[:1] == ["start"] for b in cl[4]):
+                    why.append("step %d %s requested `systemctl start` while `systemctl stop` was still in progress" % (i, " ".join(args)))
         starts = [j for j, c in enumerate(calls) if c[0][:1] == ["start"]]
         if starts and any(c[1] != post4 for c in calls[starts[0]:]):
             why.append("step %d %s replaced a system file after `systemctl start`" % (i, " ".join(args)))
@@ -406,7 +421,10 @@ def known_filter(f):
     return None
 
 
-def corpus_scenarios():
+SLOW_STOP = 32.0     # seconds; a stop job that needs longer than any plausible "give up waiting" bound of 30 s
+
+
+def corpus_scenarios(quick=True):
     """fixed cases replayed first on every run (ids < 0)"""
     ag = lambda v, mode=0o755: (mode, MAGIC + v.encode() + b"\nexit 0\n#corpus")
     old = {"SysExe": ag("1.0.1"), "SysCfg": (0o600, b'{"old":1}'), "SysEbpf": (0o644, b"old-ebpf"), "SysUnit": (0o644, b"[Unit]\nold")}
@@ -415,13 +433,14 @@ def corpus_scenarios():
     triple = [["backup"], ["install"], ["restore"]]
     out = []
 
-    def add(name, files, cmds, running=True, enabled=True, extras=(), faults=None):
+    def add(name, files, cmds, running=True, enabled=True, extras=(), faults=None, delays=None):
         files = dict(files)
         for i in extras:
             files["X%d" % i] = (0o644, b"extra-%d" % i)
         out.append({"id": -1 - len(out), "classes": {"system": name, "backup": name, "package": name}, "files": files,
                     "extras": sorted(extras), "running": running, "enabled": enabled, "cmds": cmds,
-                    "faults": list(faults) if faults else [[] for _ in cmds]})
+                    "faults": list(faults) if faults else [[] for _ in cmds],
+                    "delays": list(delays) if delays else [[] for _ in cmds]})
     add("corpus:upgrade-and-rollback", {**old, **pkg}, triple + [["restore"], ["purge"]], extras=(0, 2, 4, 5))
     add("corpus:stale-backup", {**old, **pkg, **stale}, triple, extras=(9, 10))
     add("corpus:agent-not-runnable (C17-K1)", {**old, **pkg, "SysExe": ag("1.0.1", 0o644)}, triple)
@@ -434,6 +453,11 @@ def corpus_scenarios():
         faults=[[], [4, 0, 0, 0, 0], [1, 0, 0, 0, 0], [1, 1, 0]])
     add("corpus:start-and-enable-fail", {**old, **pkg}, triple, faults=[[], [0, 0, 0, 1, 1], [0, 0, 0, 5, 1]])
     add("corpus:two-cycles-keep-backup", {**old, **pkg}, [["backup"], ["install"], ["restore", "false"], ["backup"], ["install"], ["restore"]])
+    # a `systemctl stop` that takes SLOW_STOP seconds: nothing may be replaced, no start requested, before it ends
+    add("corpus:slow-stop-install", {**old, **pkg}, [["backup"], ["install"]], delays=[[], [SLOW_STOP]])
+    if not quick:
+        add("corpus:slow-stop-restore", {**old, **pkg, **stale}, [["restore"]], delays=[[SLOW_STOP + 2]])
+        add("corpus:slow-stop-uninstall", {**old, **pkg}, [["uninstall", "package"]], delays=[[SLOW_STOP + 1]])
     add("corpus:uninstall-purge", {**old, **pkg, **stale}, [["uninstall", "package"], ["purge"], ["restore"], ["install"]], extras=(9, 11, 5))
     return out
 
@@ -539,7 +563,7 @@ def run(ctx):
     ctx.log("binary accepts `restore false`:", accepts)
 
     nseq = 300 if ctx.quick else 3000
-    scenarios = corpus_scenarios() + [gen_scenario(rng, i) for i in range(nseq)]
+    scenarios = corpus_scenarios(ctx.quick) + [gen_scenario(rng, i) for i in range(nseq)]
     try:
         impl, mres = execute(ctx, scenarios, lay, binary, accepts, with_model)
     except RuntimeError as e:
@@ -559,7 +583,7 @@ def run(ctx):
         msteps = model_steps(sc, lay, mr) if mr is not None else []
         diffs = compare(sc, lay, msteps, ir) if mr is not None else []
         case = {"id": sc["id"], "classes": sc["classes"], "running": sc["running"], "enabled": sc["enabled"], "cmds": sc["cmds"],
-                "faults": sc.get("faults"),
+                "faults": sc.get("faults"), "delays": sc.get("delays"),
                 "files": [[lay.render(k), "%o" % m, d.hex()] for k, (m, d) in sorted(sc["files"].items())],
                 "replay": "python3 tools/checks/c17.py <this replay file>   # re-runs the case on the real binary and re-evaluates the property"}
         nsteps += len(ir["steps"])
@@ -636,7 +660,8 @@ def main(argv):
         files = {path2key[p]: (int(m, 8), bytes.fromhex(h)) for p, m, h in case["files"]}
         sc = {"id": 0, "files": files, "extras": sorted(int(k[1:]) for k in files if k.startswith("X")),
               "running": case["running"], "enabled": case["enabled"], "cmds": case["cmds"],
-              "faults": case.get("faults") or [[] for _ in case["cmds"]]}
+              "faults": case.get("faults") or [[] for _ in case["cmds"]],
+              "delays": case.get("delays") or [[] for _ in case["cmds"]]}
         ir = run_impl(ctx, [runner_input(sc, lay, binary)], workers=1)[0]
         for s in ir["steps"]:
             print(" ".join(s["args"]), "-> rc", s["rc"], "calls", [" ".join(c[0]) + " (exit %d)" % c[2] for c in s["calls"]],
